@@ -62,6 +62,15 @@ byte string (valid UTF-8 through the string form, everything else through the ba
 theorem string_roundtrip (s rest : Bytes) : readString (writeString s ++ rest) = .ok s (writeString s).length :=
   readString_writeString s rest
 
+/-- the reader accepts the base64 object form for any content, also for valid UTF-8 (DESIGN Appendix B: "both forms
+accepted for any content") -/
+theorem base64_form_accepted_for_any_content (s rest : Bytes) :
+    readString ([0x7B, 0x22, 0x62, 0x61, 0x73, 0x65, 0x36, 0x34, 0x22, 0x3A, 0x22] ++ b64encode s ++ [0x22, 0x7D] ++ rest)
+      = .ok s ((b64encode s).length + 13) := by
+  have := readString_b64_form s rest
+  simp only [List.length_append, List.length_cons, List.length_nil] at this
+  rw [this]; congr 1; omega
+
 /-- hence the string writer is injective -/
 theorem string_writer_injective (s₁ s₂ : Bytes) (h : writeString s₁ = writeString s₂) : s₁ = s₂ := by
   have h1 := string_roundtrip s₁ []
